@@ -4,6 +4,7 @@ import NasVerif.Proofs.Snow3gRefine
 import NasVerif.Proofs.ZucRefine
 import NasVerif.Proofs.EncBits
 import NasVerif.Gen.Unrecognised
+import NasVerif.Gen.Globals
 /-!
 # C06 — NEA1/NEA2/NEA3 equal the standard 128-EEA1/2/3 functions
 
@@ -146,6 +147,12 @@ theorem nasEncrypt13_spec (E : Bytes → Bytes → Bytes) (key : Bytes) (count b
     refine ⟨out, ?_, hl, by rw [← hfull out hl, hbits, hfullp]⟩
     simp only [Security.NASEncrypt, hb', hd', if_false, hrun]
     simp [Proofs.EncLoops.copy_same p out hl]
+
+/-- The models take the ciphering and integrity functions to be functions of their arguments. On the facts regenerated from the
+source on this run: no function of the security packages (other than `init`) assigns a package-level variable, takes its
+address or hands out a reference to it — no cache, pool or scratch buffer through which one call could influence another. -/
+theorem security_stateless :
+    ∀ p ∈ Gen.Globals.writerPkgs, p ≠ "security" ∧ p ≠ "security/snow3g" ∧ p ≠ "security/zuc" := by decide
 
 set_option maxRecDepth 1000000 in
 /-- non-vacuity: published SNOW 3G test set 1 through the model -/
